@@ -150,6 +150,13 @@ pub fn module_level_cases() -> Vec<Case> {
         (Ty::string(Charset::Utf8, Size::Any), Lit::Str("a b  c".into())),
         (Ty::string(Charset::Utf8, Size::Any), Lit::Str("x,y{z}".into())),
         (Ty::string(Charset::Utf8, Size::Any), Lit::Str("".into())),
+        // blanks and punctuation at the edges of a character string belong to the string
+        (Ty::string(Charset::Utf8, Size::Any), Lit::Str(" lead".into())),
+        (Ty::string(Charset::Utf8, Size::Any), Lit::Str("trail  ".into())),
+        (Ty::string(Charset::Utf8, Size::Any), Lit::Str("(abc) d".into())),
+        (Ty::string(Charset::Utf8, Size::Any), Lit::Str(":x,".into())),
+        (Ty::string(Charset::Utf8, Size::Any), Lit::Str(" ".into())),
+        (Ty::string(Charset::Utf8, Size::Any), Lit::Str("{ [ ] }".into())),
         (Ty::string(Charset::Ia5, Size::Any), Lit::Str("ia5".into())),
         (Ty::string(Charset::Numeric, Size::Any), Lit::Str("12 3".into())),
         (Ty::string(Charset::Printable, Size::Any), Lit::Str("Pr-1".into())),
@@ -169,6 +176,7 @@ pub fn module_level_cases() -> Vec<Case> {
         (Ty::int(), Lit::Int(0)),
         (Ty::Bool, Lit::Bool(false)),
         (Ty::string(Charset::Utf8, Size::Any), Lit::Str("hi there".into())),
+        (Ty::string(Charset::Utf8, Size::Any), Lit::Str(" (x) ".into())),
         (Ty::string(Charset::Ia5, Size::Range(0, Some(9), false)), Lit::Str("x".into())),
         (Ty::oct(Size::Any), Lit::Hex(vec![0xDE, 0xAD])),
         (Ty::r("Colour"), Lit::Enum("green".into())),
